@@ -85,7 +85,16 @@ func checkC18(c *Case, r *Rec) error {
 		}
 		return nil
 	}
+	if c.Kind == "function-only" {
+		if h(v) && !functionList.MatchString(v) {
+			return violation("", "C18: the default handler for %q accepts %q, which is neither a keyword of that property nor a list of function calls", prop, v)
+		}
+		return nil
+	}
 	if c.Kind == "number" {
+		if digitThenDot.MatchString(v) && h(v) {
+			return violation("", "C18: the default handler for %q accepts %q, in which a number ends in a dot", prop, v)
+		}
 		if cssNumberLike.MatchString(v) && !cssNumber.MatchString(v) && h(v) {
 			return violation("", "C18: the default handler for %q accepts %q, which is not a CSS number", prop, v)
 		}
@@ -375,7 +384,13 @@ func fixedC18(r *Rec, tier string, shard, nshards int) []*Case {
 	fails = append(fails, sf...)
 	totalCalls += scalls
 	r.ClassN("structural_damage_calls", scalls)
+	nif, nicalls := numberInsideStage(props)
+	fails = append(fails, nif...)
+	totalCalls += nicalls
 	if shard == 0 {
+		ff, fcalls := functionOnlyStage()
+		fails = append(fails, ff...)
+		totalCalls += fcalls
 		pf, pcalls := positionStage()
 		fails = append(fails, pf...)
 		totalCalls += pcalls
